@@ -36,6 +36,10 @@ type c09Case struct {
 	// (header blocks beyond 64 KiB take another path through the reader)
 	BigUser int `json:"big_user,omitempty"`
 	BigResp int `json:"big_resp,omitempty"`
+	// Onward (rpc): the handler makes an onward call to another service with the context it received
+	// ("it can be used for onward calls"), between setting the first and the second half of its
+	// response headers; same = with the received context itself, clone = with a clone of it
+	Onward string `json:"onward,omitempty"`
 }
 
 func genUserPairs(t *rapid.T, label string, max int) []KV {
@@ -97,6 +101,7 @@ func genC09(t *rapid.T) c09Case {
 	}
 	c.Calls = rapid.IntRange(1, 4).Draw(t, "calls")
 	c.Reuse = rapid.IntRange(0, 2).Draw(t, "reuse") == 0
+	c.Onward = rapid.SampledFrom([]string{"", "", "same", "same", "clone"}).Draw(t, "onward")
 	return c
 }
 
@@ -119,6 +124,9 @@ func classifyC09(c c09Case) ev.Class {
 	}
 	if len(c.Resp) > 0 {
 		labels = append(labels, "response-headers")
+	}
+	if c.Onward != "" && c.Mode == "rpc" {
+		labels = append(labels, "handler-makes-onward-call-with-"+c.Onward+"-context")
 	}
 	if c.Reuse && c.Calls > 1 {
 		labels = append(labels, "fcontext-reused")
@@ -171,7 +179,8 @@ func (c c09Case) userFor0(i int) []KV {
 	if c.Reuse {
 		// a reused context can only accumulate headers
 		out := append([]KV{}, c.User...)
-		for j := 1; j <= i; j++ {
+		// (every other call adds nothing new: only its timeout differs from the previous call)
+		for j := 1; j <= i; j += 2 {
 			out = append(out, kv(fmt.Sprintf("added-in-call-%d", j), fmt.Sprint(j)))
 		}
 		return out
@@ -188,6 +197,14 @@ func (c c09Case) userFor0(i int) []KV {
 		out = append(out, KV{p.K, v})
 	}
 	return out
+}
+
+// timeoutFor: the timeout of call i (sequential calls of one case use different timeouts).
+func (c c09Case) timeoutFor(i int) int {
+	if i < 0 || c.TimeoutMs <= 0 {
+		return c.TimeoutMs
+	}
+	return c.TimeoutMs + 37*i
 }
 
 func (c c09Case) respFor(i int) []KV {
@@ -251,6 +268,8 @@ func execC09RPC(c c09Case) *ev.Failure {
 	var mu sync.Mutex
 	var seen []seenCtx
 	var burstOps []string
+	var leaf *rpcEnv
+	var onwardErr error
 	h := &svcHandler{
 		echo: func(ctx frugal.FContext, v string) (string, error) {
 			if b, ok := ctx.RequestHeader("burst-call"); ok {
@@ -266,7 +285,22 @@ func execC09RPC(c c09Case) *ev.Failure {
 			seen = append(seen, seenCtx{ctx.RequestHeaders(), ctx.CorrelationID(), ctx.Timeout()})
 			callNo := len(seen) - 1
 			mu.Unlock()
-			for _, p := range c.respFor(callNo) {
+			resp := c.respFor(callNo)
+			for _, p := range resp[:len(resp)/2] {
+				ctx.AddResponseHeader(string(p.K), string(p.V))
+			}
+			if c.Onward != "" && leaf != nil {
+				octx := ctx
+				if c.Onward == "clone" {
+					octx = frugal.Clone(ctx)
+				}
+				if r, err := leaf.client.Echo(octx, "onward"); err != nil || r != "leaf:onward" {
+					mu.Lock()
+					onwardErr = fmt.Errorf("onward call with the received context: %q, %v", r, err)
+					mu.Unlock()
+				}
+			}
+			for _, p := range resp[len(resp)/2:] {
 				ctx.AddResponseHeader(string(p.K), string(p.V))
 			}
 			switch c.Outcome {
@@ -280,6 +314,21 @@ func execC09RPC(c c09Case) *ev.Failure {
 			return "echo:" + v, nil
 		},
 		fire: func(ctx frugal.FContext, v string) error { return nil },
+	}
+	if c.Onward != "" {
+		lh := &svcHandler{
+			echo: func(ctx frugal.FContext, v string) (string, error) {
+				ctx.AddResponseHeader("leaf-header", "from-leaf")
+				return "leaf:" + v, nil
+			},
+			fire: func(ctx frugal.FContext, v string) error { return nil },
+		}
+		le, lerr := newRPCEnv("loop", c.Proto, newSvcProcessor(lh), rpcOpts{})
+		if lerr != nil {
+			return ev.Failf("harness:env", "%v", lerr)
+		}
+		defer le.close()
+		leaf = le
 	}
 	opts := rpcOpts{}
 	if c.Burst > 0 {
@@ -299,12 +348,19 @@ func execC09RPC(c c09Case) *ev.Failure {
 			ctx = frugal.NewFContext(c.Cid)
 			shared = ctx
 		}
-		if c.TimeoutMs != 5000 || i%2 == 1 {
-			ctx.SetTimeout(time.Duration(c.TimeoutMs) * time.Millisecond)
+		// the timeout differs from call to call; on a reused context it is set before or after the
+		// headers of that call are added (both are legal orders of the same API calls)
+		callTimeout := c.timeoutFor(i)
+		timeoutLast := c.Reuse && i%2 == 1
+		if !timeoutLast && (callTimeout != 5000 || i%2 == 1) {
+			ctx.SetTimeout(time.Duration(callTimeout) * time.Millisecond)
 		}
 		user := c.userFor(i)
 		for _, p := range user {
 			ctx.AddRequestHeader(string(p.K), string(p.V))
+		}
+		if timeoutLast {
+			ctx.SetTimeout(time.Duration(callTimeout) * time.Millisecond)
 		}
 		callerOp := opidOf(ctx)
 		if !(c.Reuse && i > 0) {
@@ -343,10 +399,18 @@ func execC09RPC(c c09Case) *ev.Failure {
 			s = seen[n-1]
 		}
 		mu.Unlock()
+		mu.Lock()
+		oe := onwardErr
+		mu.Unlock()
+		if oe != nil {
+			return ev.Failf("onward-call-failed", "%s: %v", where, oe)
+		}
 		if n != i+1 {
 			return ev.Failf("handler-count", "%s: handler ran %d times after %d calls", where, n, i+1)
 		}
-		if f := checkSeen(c, s, callerOp, wantCid, where, user); f != nil {
+		cc := c
+		cc.TimeoutMs = callTimeout
+		if f := checkSeen(cc, s, callerOp, wantCid, where, user); f != nil {
 			return f
 		}
 		// caller side
